@@ -40,6 +40,9 @@ def gen(ctx):
         T.nth_test(sto, "StorageNode.under_min", 0, {}, "g_avail_unknown", ["avail_none"], atoms=natoms, expect_count=1),
         T.return_expr(sto, "StorageNode.under_min", {"self_avail_gb": "Z", "self_min_avail_gb": "Z"}, "g_under_min", ["self_avail_gb", "self_min_avail_gb"], atoms=natoms),
     ]
+    gt = [ast.unparse(x) for x in ast.walk(T.find_func(sto, "StorageNode.get_total_gb")) if isinstance(x, ast.Call) and isinstance(x.func, ast.Attribute) and x.func.attr == "where"]
+    if gt != ["ArchiveFile.select(fn.Sum(ArchiveFile.size_b)).join(ArchiveFileCopy).where(ArchiveFileCopy.node == self, ArchiveFileCopy.has_file == 'Y')"]:
+        raise T.Untranslatable(f"UNTRANSLATABLE: StorageNode.get_total_gb no longer sums the files of all present copies: {gt}")
     for fn_, n_ in (("check_over_max", 2), ("under_min", 2)):
         rets = [(x.lineno, ast.unparse(x)) for x in ast.walk(T.find_func(sto, "StorageNode." + fn_)) if isinstance(x, ast.Return)]
         rets = [r for _, r in sorted(rets)]
@@ -317,7 +320,8 @@ def gate_quantities(ctx, rng, base, n):
         for j, sz in enumerate(tot_parts):
             f = w.mkfile(acq, f"old{j}", b"")
             w.ArchiveFile.update(size_b=sz).where(w.ArchiveFile.id == f.id).execute()
-            w.mkcopy(dst, f, "Y", "Y", size_b=sz)
+            # what is on the node counts, whether it is to stay, removable or already released (and not yet deleted)
+            w.mkcopy(dst, f, "Y", rng.choice("YYMN"), size_b=sz)
         # copies that do not count towards the total: suspect, corrupt, removed
         for j, hs in enumerate(rng.sample(["M", "X", "N"], rng.randint(0, 2))):
             f = w.mkfile(acq, f"nc{j}", b"")
